@@ -26,29 +26,31 @@ theorem pre_alive (sched : Nat → Intf) (row0 : Row) (h0 : row0.alive = true) (
 /-- The completion check under arbitrary interference (rows not deleted) does exactly one of:
     NOTHING (the committed row is the interferers' row);
     the SUCCESS completion, atomically, on the row `rc` of its compare-and-swap, whose state is the
-    state the RE-READ `r2` showed — RUNNING or (no guard!) SUCCESS;
+    state the RE-READ `r2` showed: not finished (guard of `_succeed_workflow`, repo fix ce9b9520) and
+    a valid source of SUCCESS, i.e. RUNNING;
     the FORCE-FAIL of the exception handler, atomically, on the row `rh`, when the re-read showed
-    a state that is neither RUNNING / SUCCESS nor finished (e.g. PAUSED). -/
+    a state that is neither finished nor a valid source of SUCCESS (e.g. PAUSED). -/
 theorem cac_succeed_atomic (sched : Nat → Intf) (vars : Fields) (row0 : Row)
     (h0 : row0.alive = true) (hk : KeepsAlive sched) :
-    ((runWith cacSucceedWorkflow sched vars row0).sh.db = pre sched 25 row0 ∧
+    ((runWith cacSucceedWorkflow sched vars row0).sh.db = pre sched 26 row0 ∧
       (runWith cacSucceedWorkflow sched vars row0).l.emitted = []) ∨
     (memVals (pausedStates ++ completedStates) ((pre sched 1 row0).f 0) = false ∧
+      memVals completedStates ((pre sched 4 row0).f 0) = false ∧
       memVals validFromSuccess ((pre sched 4 row0).f 0) = true ∧
-      (pre sched 7 row0).f 0 = (pre sched 4 row0).f 0 ∧
+      (pre sched 8 row0).f 0 = (pre sched 4 row0).f 0 ∧
       (runWith cacSucceedWorkflow sched vars row0).sh.db =
-        between sched 7 18 (winRow (.str "SUCCESS") (vars 1) (vars 2) (pre sched 4 row0) (pre sched 7 row0))) ∨
+        between sched 8 18 (winRow (.str "SUCCESS") (vars 1) (vars 2) (pre sched 4 row0) (pre sched 8 row0))) ∨
     (memVals (pausedStates ++ completedStates) ((pre sched 1 row0).f 0) = false ∧
       memVals validFromSuccess ((pre sched 4 row0).f 0) = false ∧
       memVals completedStates ((pre sched 4 row0).f 0) = false ∧
       memVals validFromError ((pre sched 4 row0).f 0) = true ∧
-      (pre sched 18 row0).f 0 = (pre sched 4 row0).f 0 ∧
+      (pre sched 19 row0).f 0 = (pre sched 4 row0).f 0 ∧
       (runWith cacSucceedWorkflow sched vars row0).sh.db =
-        between sched 18 7 (winRow (.str "ERROR") (vars 3) (vars 4) (pre sched 4 row0) (pre sched 18 row0))) := by
+        between sched 19 7 (winRow (.str "ERROR") (vars 3) (vars 4) (pre sched 4 row0) (pre sched 19 row0))) := by
   have a1 := pre_alive sched row0 h0 hk 1
   have a4 := pre_alive sched row0 h0 hk 4
-  have a7 := pre_alive sched row0 h0 hk 7
-  have a18 := pre_alive sched row0 h0 hk 18
+  have a8 := pre_alive sched row0 h0 hk 8
+  have a19 := pre_alive sched row0 h0 hk 19
   by_cases g1 : memVals completedStates ((pre sched 1 row0).f 0) = true
   · left
     simp only [pre, completedStates] at a1 g1
@@ -59,49 +61,48 @@ theorem cac_succeed_atomic (sched : Nat → Intf) (vars : Fields) (row0 : Row)
     simp only [pre, completedStates, pausedStates, List.cons_append, List.nil_append] at a1 g1 g2
     simp only [cacSucceedWorkflow]
     race_simp [a1, g1, g2]
+  by_cases c : memVals completedStates ((pre sched 4 row0).f 0) = true
+  · left
+    simp only [pre, completedStates, pausedStates, List.cons_append, List.nil_append] at a1 a4 g1 g2 c
+    simp only [cacSucceedWorkflow]
+    race_simp [a1, a4, g1, g2, c]
   by_cases v : memVals validFromSuccess ((pre sched 4 row0).f 0) = true
-  · by_cases m : (pre sched 7 row0).f 0 = (pre sched 4 row0).f 0
+  · by_cases m : (pre sched 8 row0).f 0 = (pre sched 4 row0).f 0
     · right; left
-      refine ⟨by simpa using g2, v, m, ?_⟩
-      simp only [pre, completedStates, pausedStates, validFromSuccess, List.cons_append, List.nil_append] at a1 a4 a7 g1 g2 v m
+      refine ⟨by simpa using g2, by simpa using c, v, m, ?_⟩
+      simp only [pre, completedStates, pausedStates, validFromSuccess, List.cons_append, List.nil_append] at a1 a4 a8 g1 g2 c v m
       simp only [cacSucceedWorkflow]
       by_cases h4 : vars 1 = (sched 3 (sched 2 (sched 1 (sched 0 row0)))).f 1 <;>
         by_cases h5 : Val.bool true = (sched 3 (sched 2 (sched 1 (sched 0 row0)))).f 3 <;>
         by_cases h6 : ((sched 3 (sched 2 (sched 1 (sched 0 row0)))).f 4).truthy = true <;>
-        (race_simp [a1, a4, a7, g1, g2, v, m, h4, h5, h6, winRow]
+        (race_simp [a1, a4, a8, g1, g2, c, v, m, h4, h5, h6, winRow]
          try race_rows)
     · left
-      simp only [pre, completedStates, pausedStates, validFromSuccess, List.cons_append, List.nil_append] at a1 a4 a7 g1 g2 v m
+      simp only [pre, completedStates, pausedStates, validFromSuccess, List.cons_append, List.nil_append] at a1 a4 a8 g1 g2 c v m
       simp only [cacSucceedWorkflow]
-      race_simp [a1, a4, a7, g1, g2, v, m]
-  · by_cases c : memVals completedStates ((pre sched 4 row0).f 0) = true
-    · left
-      simp only [pre, completedStates, pausedStates, validFromSuccess, List.cons_append, List.nil_append] at a1 a4 g1 g2 v c
-      simp only [cacSucceedWorkflow]
-      race_simp [a1, a4, g1, g2, v, c]
-    · by_cases e : memVals validFromError ((pre sched 4 row0).f 0) = true
-      · by_cases mh : (pre sched 18 row0).f 0 = (pre sched 4 row0).f 0
-        · right; right
-          refine ⟨by simpa using g2, by simpa using v, by simpa using c, e, mh, ?_⟩
-          simp only [pre, completedStates, pausedStates, validFromSuccess, validFromError, List.cons_append, List.nil_append]
-            at a1 a4 a18 g1 g2 v c e mh
-          simp only [cacSucceedWorkflow]
-          by_cases h4 : vars 3 = (sched 3 (sched 2 (sched 1 (sched 0 row0)))).f 1 <;>
-            by_cases h5 : Val.bool true = (sched 3 (sched 2 (sched 1 (sched 0 row0)))).f 3 <;>
-            by_cases h6 : ((sched 3 (sched 2 (sched 1 (sched 0 row0)))).f 4).truthy = true <;>
-            (race_simp [a1, a4, a18, g1, g2, v, c, e, mh, h4, h5, h6, winRow]
-             try race_rows)
-        · left
-          simp only [pre, completedStates, pausedStates, validFromSuccess, validFromError, List.cons_append, List.nil_append]
-            at a1 a4 a18 g1 g2 v c e mh
-          simp only [cacSucceedWorkflow]
-          race_simp [a1, a4, a18, g1, g2, v, c, e, mh]
+      race_simp [a1, a4, a8, g1, g2, c, v, m]
+  · by_cases e : memVals validFromError ((pre sched 4 row0).f 0) = true
+    · by_cases mh : (pre sched 19 row0).f 0 = (pre sched 4 row0).f 0
+      · right; right
+        refine ⟨by simpa using g2, by simpa using v, by simpa using c, e, mh, ?_⟩
+        simp only [pre, completedStates, pausedStates, validFromSuccess, validFromError, List.cons_append, List.nil_append]
+          at a1 a4 a19 g1 g2 v c e mh
+        simp only [cacSucceedWorkflow]
+        by_cases h4 : vars 3 = (sched 3 (sched 2 (sched 1 (sched 0 row0)))).f 1 <;>
+          by_cases h5 : Val.bool true = (sched 3 (sched 2 (sched 1 (sched 0 row0)))).f 3 <;>
+          by_cases h6 : ((sched 3 (sched 2 (sched 1 (sched 0 row0)))).f 4).truthy = true <;>
+          (race_simp [a1, a4, a19, g1, g2, v, c, e, mh, h4, h5, h6, winRow]
+           try race_rows)
       · left
         simp only [pre, completedStates, pausedStates, validFromSuccess, validFromError, List.cons_append, List.nil_append]
-          at a1 a4 g1 g2 v c e
+          at a1 a4 a19 g1 g2 v c e mh
         simp only [cacSucceedWorkflow]
-        race_simp [a1, a4, g1, g2, v, c, e]
-
+        race_simp [a1, a4, a19, g1, g2, v, c, e, mh]
+    · left
+      simp only [pre, completedStates, pausedStates, validFromSuccess, validFromError, List.cons_append, List.nil_append]
+        at a1 a4 g1 g2 v c e
+      simp only [cacSucceedWorkflow]
+      race_simp [a1, a4, g1, g2, v, c, e]
 
 /-! ### the sentences of C03 / C11 for the completion check, and where the code falls short -/
 
@@ -125,48 +126,26 @@ theorem at3_keeps (g : Intf) (hg : ∀ r, r.alive = true → (g r).alive = true)
   · exact h
 
 /-- "once a workflow is finished its state and output are not altered": if the row is finished at
-    the instant of the compare-and-swap the script attempts, the script leaves no trace.  FALSE of
-    the code: the operator's stop(SUCCESS, msg) commits between the stale guard and the re-read; the
-    completion check re-reads SUCCESS, SUCCESS -> SUCCESS is an identity transition, the
-    compare-and-swap matches the finished row and state_info is rewritten (known finding
-    `finished-row-altered-by-racing-transaction`, replayed on the real code by the race stream). -/
-theorem cac_succeed_keeps_finished_full_fails :
-    ¬ (∀ (sched : Nat → Intf) (vars : Fields) (row0 : Row), row0.alive = true → KeepsAlive sched →
-        memVals completedStates ((pre sched 7 row0).f 0) = true →
-        (runWith cacSucceedWorkflow sched vars row0).sh.db = pre sched 25 row0) := by
-  intro h
-  have := h (at3 opSuccess) scriptVars rowRunning rfl
-    (at3_keeps _ (by intro r hr; unfold opSuccess; split <;> simp_all))
-    (by simp [pre, at3, opSuccess, rowRunning, memVals, completedStates, Fields.set])
-  have h1 := congrArg (fun r => r.f 1) this
-  simp only [cacSucceedWorkflow] at h1
-  race_simp_at h1 [memVals, Val.truthy, at3, opSuccess, rowRunning, scriptVars]
-
-/-- .. and TRUE whenever the re-read does not show SUCCESS: a row finished as ERROR / CANCELLED (or
-    finished as anything after the re-read) is never touched — by the success path or by the
-    force-fail handler. -/
-theorem cac_succeed_keeps_finished_partial (sched : Nat → Intf) (vars : Fields) (row0 : Row)
-    (h0 : row0.alive = true) (hk : KeepsAlive sched)
-    (hns : (pre sched 4 row0).f 0 ≠ .str "SUCCESS") :
-    (memVals completedStates ((pre sched 7 row0).f 0) = true →
-      (runWith cacSucceedWorkflow sched vars row0).sh.db = pre sched 25 row0 ∨
-      -- (the success path is out; what may still have happened is the force-fail on a row that was
-      --  NOT finished at ITS instant)
-      memVals completedStates ((pre sched 18 row0).f 0) = false) ∧
-    (memVals completedStates ((pre sched 7 row0).f 0) = true →
-      memVals completedStates ((pre sched 18 row0).f 0) = true →
-      (runWith cacSucceedWorkflow sched vars row0).sh.db = pre sched 25 row0) := by
-  have key : memVals completedStates ((pre sched 7 row0).f 0) = true →
-      (runWith cacSucceedWorkflow sched vars row0).sh.db = pre sched 25 row0 ∨
-      memVals completedStates ((pre sched 18 row0).f 0) = false := by
+    the instant of the compare-and-swap the script attempts (success path: gap 8, force-fail handler:
+    gap 19), the script leaves no trace.  Before repo fix ce9b9520 this was FALSE
+    (`cac_succeed_keeps_finished_full_fails`: a stop(SUCCESS, msg) committing between the stale guard
+    and the re-read was rewritten through SUCCESS -> SUCCESS); with the is_completed guard of
+    `_succeed_workflow`, evaluated on the RE-READ copy, it is the full statement. -/
+theorem cac_succeed_keeps_finished (sched : Nat → Intf) (vars : Fields) (row0 : Row)
+    (h0 : row0.alive = true) (hk : KeepsAlive sched) :
+    (memVals completedStates ((pre sched 8 row0).f 0) = true →
+      (runWith cacSucceedWorkflow sched vars row0).sh.db = pre sched 26 row0 ∨
+      memVals completedStates ((pre sched 19 row0).f 0) = false) ∧
+    (memVals completedStates ((pre sched 8 row0).f 0) = true →
+      memVals completedStates ((pre sched 19 row0).f 0) = true →
+      (runWith cacSucceedWorkflow sched vars row0).sh.db = pre sched 26 row0) := by
+  have key : memVals completedStates ((pre sched 8 row0).f 0) = true →
+      (runWith cacSucceedWorkflow sched vars row0).sh.db = pre sched 26 row0 ∨
+      memVals completedStates ((pre sched 19 row0).f 0) = false := by
     intro hfin
-    rcases cac_succeed_atomic sched vars row0 h0 hk with h | ⟨_, hv, hm, _⟩ | ⟨_, _, hc, _, hm, _⟩
+    rcases cac_succeed_atomic sched vars row0 h0 hk with h | ⟨_, hc, _, hm, _⟩ | ⟨_, _, hc, _, hm, _⟩
     · exact Or.inl h.1
-    · rw [hm] at hfin
-      simp [memVals, validFromSuccess, completedStates] at hv hfin
-      rcases hv with hv | hv
-      · rw [hv] at hfin; simp at hfin
-      · exact absurd hv hns
+    · rw [hm] at hfin; rw [hfin] at hc; cases hc
     · right; rw [hm]; exact hc
   refine ⟨key, ?_⟩
   intro h7 h18
@@ -181,7 +160,7 @@ theorem cac_succeed_keeps_finished_partial (sched : Nat → Intf) (vars : Fields
     which neither party asked for (known finding `paused-during-completion-check-forced-to-error`). -/
 theorem cac_one_party_full_fails :
     ¬ (∀ (sched : Nat → Intf) (vars : Fields) (row0 : Row), row0.alive = true → KeepsAlive sched →
-        (runWith cacSucceedWorkflow sched vars row0).sh.db = pre sched 25 row0 ∨
+        (runWith cacSucceedWorkflow sched vars row0).sh.db = pre sched 26 row0 ∨
         (runWith cacSucceedWorkflow sched vars row0).sh.db.f 0 = .str "SUCCESS") := by
   intro h
   have := h (at3 opPause) scriptVars rowRunning rfl
@@ -198,29 +177,33 @@ theorem cac_one_party_partial (sched : Nat → Intf) (vars : Fields) (row0 : Row
     (h0 : row0.alive = true) (hk : KeepsAlive sched)
     (hre : memVals validFromSuccess ((pre sched 4 row0).f 0) = true ∨
            memVals completedStates ((pre sched 4 row0).f 0) = true) :
-    (runWith cacSucceedWorkflow sched vars row0).sh.db = pre sched 25 row0 ∨
-    ∃ W : Row, (runWith cacSucceedWorkflow sched vars row0).sh.db = between sched 7 18 W ∧
+    (runWith cacSucceedWorkflow sched vars row0).sh.db = pre sched 26 row0 ∨
+    ∃ W : Row, (runWith cacSucceedWorkflow sched vars row0).sh.db = between sched 8 18 W ∧
       W.f 0 = .str "SUCCESS" ∧ W.f 2 = vars 2 := by
-  rcases cac_succeed_atomic sched vars row0 h0 hk with h | ⟨_, _, _, h⟩ | ⟨_, hv, hc, _⟩
+  rcases cac_succeed_atomic sched vars row0 h0 hk with h | ⟨_, _, _, _, h⟩ | ⟨_, hv, hc, _⟩
   · exact Or.inl h.1
   · exact Or.inr ⟨_, h, by simp [winRow], by simp [winRow]⟩
   · rcases hre with hre | hre
     · rw [hre] at hv; cases hv
     · rw [hre] at hc; cases hc
 
-/-- non-vacuity of `cac_succeed_keeps_finished_partial`: the operator CANCELS between the two reads;
-    the hypotheses hold and the row keeps the operator's state -/
+/-- non-vacuity of `cac_succeed_keeps_finished`: the operator CANCELS (or stops with SUCCESS) between
+    the two reads; the hypotheses hold and the row keeps the operator's state, message and output -/
 def opCancel : Intf := fun r =>
   if r.f 0 = .str "RUNNING" then
     { r with f := ((r.f.set 0 (.str "CANCELLED")).set 1 (.str "by operator")).set 2 (.str "op-out") |>.set 3 (.bool true) }
   else r
 
-example : (pre (at3 opCancel) 4 rowRunning).f 0 ≠ .str "SUCCESS" ∧
-    memVals completedStates ((pre (at3 opCancel) 7 rowRunning).f 0) = true ∧
-    memVals completedStates ((pre (at3 opCancel) 18 rowRunning).f 0) = true ∧
+example : memVals completedStates ((pre (at3 opCancel) 8 rowRunning).f 0) = true ∧
+    memVals completedStates ((pre (at3 opCancel) 19 rowRunning).f 0) = true ∧
     (runWith cacSucceedWorkflow (at3 opCancel) scriptVars rowRunning).sh.db.f 2 = .str "op-out" := by
   simp only [cacSucceedWorkflow, completedStates]
   race_simp [memVals, Val.truthy, at3, opCancel, rowRunning, scriptVars]
+
+example : memVals completedStates ((pre (at3 opSuccess) 8 rowRunning).f 0) = true ∧
+    (runWith cacSucceedWorkflow (at3 opSuccess) scriptVars rowRunning).sh.db.f 1 = .str "by operator" := by
+  simp only [cacSucceedWorkflow, completedStates]
+  race_simp [memVals, Val.truthy, at3, opSuccess, rowRunning, scriptVars]
 
 /-- without interference the completion check wins -/
 example : (runWith cacSucceedWorkflow (fun _ r => r) scriptVars rowRunning).sh.db.f 0 = .str "SUCCESS" ∧
